@@ -2,6 +2,7 @@
 from __future__ import annotations
 
 import ast
+import re
 from typing import List, Optional, Set, Tuple
 
 from . import rx
@@ -651,3 +652,120 @@ def p_r7_every_match_fed(p: Project, rep: Report):
 
         scan(lp.body)
         rep.check("P-R7", "feed:no-early-exit-from-token-loop", not exits, f"the token loop is left early ({text(exits[0])[:40]} at line {exits[0].lineno}): the rest of the input is never looked at, so a second top-level element or a stray tag after the root is accepted" if exits else "", ploc(p, exits[0] if exits else lp))
+
+
+FOREIGN_TOKENIZERS = ("XMLParser", "XMLPullParser", "fromstring", "XML", "XMLID", "iterparse", "parseString", "ParserCreate", "make_parser", "HTMLParser", "fromstringlist", "expatreader")
+
+
+def p_r8_single_tokenizer(p: Project, rep: Report):
+    """who may tokenize: the pattern's matches are the only source of tags"""
+    rep.rule("P-R8", "the message body has ONE tokenizer: ofxtools.Parser constructs no other markup parser (xml.etree XMLParser / XMLPullParser / fromstring / iterparse, expat, sax, minidom, html.parser) - the pattern whose grammar the tokenizer rules decide (X-R*) and the checked dispatcher (_feedmatch -> start()/end()) then see every tag; a second tokenizer resolves entities, comments, CDATA, attributes and whitespace by rules of its own, so the same document yields a different tree (or is refused differently) depending on which one took it")
+    m = p.module(PARSER)
+    sites = []
+    for qn, cls, fn in m.functions():
+        for c in ast.walk(fn):
+            if isinstance(c, ast.Call):
+                d = dotted(c.func) or ""
+                last = d.split(".")[-1]
+                if last in FOREIGN_TOKENIZERS:
+                    r = p.resolve(PARSER, d.split(".")[0]) if d else None
+                    # a repo function of that name is not a foreign parser
+                    from .source import Func, ClassInfo as _CI
+                    if isinstance(r, (Func, _CI)) and "." not in d:
+                        continue
+                    sites.append((qn, d, c))
+    for qn, d, c in sites:
+        rep.check("P-R8", f"{qn}:constructs:{d.split('.')[-1]}", False, f"{qn} constructs {d}(...): body text routed through it by-passes the pattern and its dispatcher - entity references, comments, CDATA sections, attributes and inter-tag whitespace are then resolved by that parser's rules, not by the tokenizer the other clauses decide", ploc(p, c))
+    nfn = len(m.functions())
+    rep.check("P-R8", "Parser:single-tokenizer", not sites, "", f"{nfn} functions of {PARSER} searched")
+    # the positive side: feed() draws its tags from the pattern
+    ci = builder(p)
+    fd0 = ci.own_func("feed")
+    if fd0 is not None:
+        from .flat import flat
+
+        fd = flat(p, PARSER, fd0, ci, keep=("_feedmatch",))
+        uses = any(isinstance(c, ast.Call) and isinstance(c.func, ast.Attribute) and c.func.attr in ("finditer", "findall", "scanner", "match", "search") for c in ast.walk(fd))
+        rep.check("P-R8", "feed:draws-tags-from-the-pattern", uses, "feed() no longer iterates the pattern's matches" if not uses else "", ploc(p, fd0))
+
+
+def p_r9_convert_built_on_every_call(p: Project, rep: Report):
+    """OFXTree.convert() converts the tree as it is now"""
+    from .flat import flat
+    from .fresh import kept_from_earlier_call
+
+    rep.rule("P-R9", "OFXTree.convert() returns a model built in that call from the tree as it is then: no returning path hands back something the parser object (or the module) kept from an earlier call - the tree is a public, mutable ElementTree (callers prune / patch it between conversions), so a memo keyed by the root's identity returns values the document no longer holds")
+    m = p.module(PARSER)
+    cd = m.classdef("OFXTree")
+    if cd is None:
+        raise AnalysisError("OFXTree not found")
+    ci = p.classinfo(PARSER, cd)
+    fn0 = ci.own_func("convert")
+    if fn0 is None:
+        raise AnalysisError("OFXTree.convert not found")
+    fn = flat(p, PARSER, fn0, ci)
+    try:
+        kept = kept_from_earlier_call(p, PARSER, fn)
+    except AnalysisError as e:
+        rep.note(f"P-R9 undecided: {e}")
+        return
+    rep.check("P-R9", "OFXTree.convert:built-on-every-call", kept is None, f"a path returns {kept[:70] if kept else ''}: a model kept from an earlier call - changes made to the tree since then are not in it" if kept else "", ploc(p, fn0))
+
+
+def p_r10_no_invented_end(p: Project, rep: Report):
+    """typestate: an element is ended only because the input said so"""
+    from . import paths as PT
+    from .flat import flat
+
+    rep.rule("P-R10", "end tags are never invented: the builder ends an element (self.end(..)) only inside the match dispatcher _feedmatch (private helpers inlined) and there only on paths that tested the match - an end tag, data text, or a captured close tag; no override of start()/data()/close()/feed() issues an end() of its own (an implied end turns a truncated or mis-nested document into a well-formed one)")
+    ci = builder(p)
+    fm0 = ci.own_func("_feedmatch")
+    if fm0 is None:
+        rep.note("P-R10 undecided: TreeBuilder has no _feedmatch")
+        return
+    # private helpers reachable from _feedmatch are part of the dispatcher
+    own = {f.name: f for f in ci.node.body if isinstance(f, ast.FunctionDef)}
+    disp, todo = set(), ["_feedmatch"]
+    while todo:
+        nm = todo.pop()
+        if nm in disp or nm not in own:
+            continue
+        disp.add(nm)
+        for c in ast.walk(own[nm]):
+            if isinstance(c, ast.Call) and isinstance(c.func, ast.Attribute) and isinstance(c.func.value, ast.Name) and c.func.value.id in ("self", "cls") and c.func.attr.startswith("_") and not c.func.attr.startswith("__"):
+                todo.append(c.func.attr)
+    n = 0
+    for nm, f in own.items():
+        if nm in disp:
+            continue
+        for c in ast.walk(f):
+            if isinstance(c, ast.Call) and text(c.func) == "self.end":
+                n += 1
+                rep.check("P-R10", f"TreeBuilder.{nm}:issues-end", False, f"{nm}() calls self.end({', '.join(text(a) for a in c.args)}): an element is ended although no end tag (and no data element) in the input called for it - mark-up with a missing end tag is then accepted as if it were complete", ploc(p, c))
+    fm = flat(p, PARSER, fm0, ci)
+    params = params_of(fm0)[1:]
+    try:
+        pths = PT.enumerate_paths(fm, None, Expander(fm))
+    except AnalysisError as e:
+        rep.note(f"P-R10 undecided: {e}")
+        return
+    cfg = pths.cfg
+    enders = {nd.id for nd in cfg.nodes if nd.stmt is not None and nd.kind not in ("join", "handlers") and any(text(c.func) == "self.end" for c in nd.calls())}
+    bad = None
+    for q in pths:
+        if q.outcome not in ("return", "fall"):
+            continue
+        hit = [i for i in q.nodes if i in enders]
+        if not hit:
+            continue
+        n += 1
+        cb = q.conds_before(hit[0]) or []
+        tested = False
+        for c, _w in cb:
+            for a in c.atoms():
+                if "'/'" in a or '"/"' in a or any(re.search(rf"\b{re.escape(x)}\b", a) for x in params[1:]):
+                    tested = True
+        if not tested:
+            bad = PT.simple_conds(q.conds)
+    rep.check("P-R10", "_feedmatch:end-only-for-end-tag-or-data", bad is None, f"a path of _feedmatch ends an element without having tested the match for an end tag, data or a close tag (taken when {bad})" if bad is not None else "", ploc(p, fm0))
+    rep.floor("P-R10", n, 2, "end() sites")
